@@ -177,6 +177,85 @@ def name_backtrack_jobs(ctx, n):
     return jobs
 
 
+def prekey_jobs(ctx, n):
+    """one element object whose pre-parse matters although it does not skip whitespace (LineStart overrides preParse; a
+    leave_whitespace()d element with ignorables still skips those) tried at ONE location both without pre-parse (first
+    member of a sequence inside Opt / Group / Forward) and with it (later member of a sequence): the cache must keep the
+    two attempts apart"""
+    jobs = []
+    for i in range(n):
+        r = random.Random(f"C02-{ctx.seed}-pk-{i}")
+        prog = [["w", "Word", "ab"], ["d", "Literal", r.choice(["-", ":"])]]
+        if r.random() < 0.5:
+            prog.append(["X", "LineStart"])
+            inputs = ["a\nb", "a\n-b\nb", "a b", "a\n\nb", "a\n:b\nab"]
+        else:
+            prog += [["h", "Literal", "#"], ["X", "leave_whitespace", "w"], ["_", "ignore", "X", "h"]]
+            inputs = ["a#b", "a#b-#b", "a##b", "ab", "a #b", "a#b:#ab"]
+        first = r.choice(["x", "xd", "xdw"])
+        seqs = {"x": ["X"], "xd": ["X", "d"], "xdw": ["X", "d", "w"]}[first]
+        prog.append(["s1", "And", seqs] if len(seqs) > 1 else ["s1", "copy", "X"])
+        wrap = r.choice(["Opt", "Opt", "Group", "Forward", "ZeroOrMore"])
+        if wrap == "Forward":
+            prog += [["F", "Forward"], ["_", "<<=", "F", "s1"], ["o", "Opt", "F"]]
+        elif wrap == "Group":
+            prog += [["g", "Group", "s1"], ["o", "Opt", "g"]]
+        elif wrap == "ZeroOrMore" and len(seqs) > 1:
+            prog.append(["o", "ZeroOrMore", "s1"])
+        else:
+            prog.append(["o", "Opt", "s1"])
+        tail = r.choice([["X", "w"], ["X", "w", "X"], ["X"]]) if prog[2][0] == "X" and prog[2][1] == "LineStart" else r.choice([["X"], ["X", "d", "X"]])
+        prog.append(["root", "And", ["w", "o"] + tail])
+        jobs.append(dict(prog=prog, root="root", inputs=inputs))
+    return jobs
+
+
+def stale_job(job):
+    """history: parse S, change the grammar in place (add a parse action to a leaf), then scan / transform / split an
+    equal string - every entry point starts from an empty cache, so packrat must agree with no memoization"""
+    pp = common.import_pyparsing()
+    n, bad = 0, []
+    for s in job["inputs"]:
+        base = None
+        for mode in [("none",)] + MODES:
+            corr_parse.set_mode(pp, mode)
+            try:
+                def hist():
+                    b = gram.build(pp, job["prog"])
+                    root = gram.prepare(b, job["root"])
+                    out = [full_outcome(pp, root, "parse", s, ())]
+                    b.env[job["leaf"]].add_parse_action(lambda t: ["Z"])
+                    s2 = "".join(list(s))          # an equal, not identical, string
+                    out.append(full_outcome(pp, root, job["entry"], s2, (100, True, False)))
+                    return out
+                o = common.with_alarm(corr_parse.CASE_TIMEOUT * 2, hist)
+            except common.CaseTimeout:
+                o = ["hang"]
+            except Exception as ex:  # noqa
+                o = ["build", type(ex).__name__]
+            finally:
+                pp.ParserElement.disable_memoization()
+            n += 1
+            if mode == ("none",):
+                base = o
+            elif o != base and base != ["hang"]:
+                bad.append({"prog": job["prog"], "root": job["root"], "input": s, "entry": job["entry"], "opts": [], "mutate": False,
+                            "mode": list(mode), "expected": base, "actual": o, "history": {"leaf": job["leaf"]}})
+                break
+    return n, bad, 0
+
+
+def stale_jobs(ctx, n):
+    jobs = []
+    for i in range(n):
+        r = random.Random(f"C02-{ctx.seed}-stale-{i}")
+        prog = [["w", "Word", "ab"], ["n", "Word", "01"], ["c", "Literal", ","], ["it", "+", "w", "n"],
+                ["root", "DelimitedList", "it"] if r.random() < 0.5 else ["root", "OneOrMore", "it"]]
+        jobs.append(dict(prog=prog, root="root", leaf=r.choice(["w", "n"]), entry=r.choice(["scan", "transform", "search"]),
+                         inputs=["ab12, cd34", "a1 b0", "ab1,ba0 x b1"]))
+    return jobs
+
+
 def corpus_jobs():
     out = []
     d = common.VERIF / "corpus" / "C02"
@@ -185,8 +264,8 @@ def corpus_jobs():
     return out
 
 
-def run_oracle(ctx, stream, jobs):
-    res = common.pmap(oracle_job, jobs)
+def run_oracle(ctx, stream, jobs, job_fn=None):
+    res = common.pmap(job_fn or oracle_job, jobs)
     n = sum(r[0] for r in res)
     fails = sum(r[2] for r in res)
     bad = [m for r in res for m in r[1]]
@@ -194,7 +273,7 @@ def run_oracle(ctx, stream, jobs):
                     outcomes={"calls": n, "base-raised": fails, "mismatch": len(bad)},
                     samples=[{"prog": jobs[0]["prog"], "root": jobs[0]["root"], "input": jobs[0]["inputs"][0]}] if jobs else [])
     for m in bad[:3]:
-        ctx.fail_input("packrat changes an outcome", {k: m[k] for k in ("prog", "root", "input", "entry", "opts", "mutate", "mode")},
+        ctx.fail_input("packrat changes an outcome", {k: m[k] for k in ("prog", "root", "input", "entry", "opts", "mutate", "mode", "history") if k in m},
                        m["expected"], m["actual"], theorem="PP.Parse.packrat_transparent / message+aliasing oracle",
                        how="build prog with harness.gram.build, enable_packrat(mode[1]) vs disable_memoization()")
     return bad
@@ -230,6 +309,8 @@ def run(ctx):
         mult = 5  # something no longer checks: search harder for a concrete failing input
     run_oracle(ctx, "oracle:general", gen_jobs(ctx, "og", ctx.budget(350, 3500) * mult, {}, 5))
     run_oracle(ctx, "oracle:name-backtrack", name_backtrack_jobs(ctx, ctx.budget(400, 4000) * mult))
+    run_oracle(ctx, "oracle:preparse-key", prekey_jobs(ctx, ctx.budget(300, 3000) * mult))
+    run_oracle(ctx, "oracle:stale-cache-history", stale_jobs(ctx, ctx.budget(60, 600) * mult), job_fn=stale_job)
     run_oracle(ctx, "oracle:names", gen_jobs(ctx, "on", ctx.budget(700, 7000) * mult, dict(names=0.45, p_reuse=0.7), 5))
     run_oracle(ctx, "oracle:sharing", gen_jobs(ctx, "os", ctx.budget(700, 7000) * mult, SHARING, 4, ["c", "a c", "ab c", " c"]))
     ctx.assumptions.append("C02: exception messages and aliasing are decided by the real-code oracle, not by a theorem; "
@@ -239,6 +320,8 @@ def run(ctx):
 def replay(data):
     if data.get("replay_kind") == "failing-input":
         c = data["case"]
+        if c.get("history"):
+            return bool(stale_job(dict(prog=c["prog"], root=c["root"], inputs=[c["input"]], leaf=c["history"]["leaf"], entry=c["entry"]))[1])
         n, bad, _ = oracle_job(dict(prog=c["prog"], root=c["root"], inputs=[c["input"]]))
         return bool(bad)
     ctx = common.Ctx("C02", "quick", data.get("seed", 0))
